@@ -51,7 +51,9 @@ func (s *smtpStorage) Certificate() (*tls.Certificate, error) {
 			return nil, err
 		}
 		if err = s.Set(keyname, pemkey); err != nil {
+			// not stored: the next start would generate another one
 			log.Errorf("Could not persist %s: %s", keyname, err.Error())
+			return nil, err
 		}
 	}
 
@@ -62,7 +64,9 @@ func (s *smtpStorage) Certificate() (*tls.Certificate, error) {
 			return nil, err
 		}
 		if err = s.Set(certname, pemcert); err != nil {
+			// not stored: the next start would generate another one
 			log.Errorf("Could not persist %s: %s", certname, err.Error())
+			return nil, err
 		}
 	}
 
